@@ -668,6 +668,41 @@ def poison_discarded(alg, cfg, post):
             reg.center = np.full(m, big)
 
 
+def install_phase_frames(alg, cfg):
+    """FRAME check per phase (PaVeBa family): discarding() and pareto_updating() read the regions of S u U only (VOAlgo!PavebaDisc,
+    PavebaNewP); the stale regions of the other members of P are read by useful_updating() alone.  While one of the two phases runs,
+    the regions of P minus U are replaced by a far-away box that would dominate and cover everything (or be dominated by everything, on odd
+    rounds) and put back afterwards: correct code cannot notice, code that takes witnesses or coverers from all of P deviates at once."""
+    if ALG_FAM[cfg["alg"]] != "paveba":
+        return
+    for name in ("discarding", "pareto_updating"):
+        inner = getattr(alg, name, None)
+        if not callable(inner):
+            continue
+
+        def wrapped(*a, _inner=inner, **k):
+            regs = alg.design_space.confidence_regions
+            big = 1000.0 if alg.round % 2 == 0 else -1000.0
+            saved = {}
+            for i in [i for i in alg.P if i not in alg.U]:
+                r = regs[i]
+                if hasattr(r, "lower"):
+                    saved[i] = ("box", r.lower, r.upper)
+                    r.lower, r.upper = np.full(alg.m, big), np.full(alg.m, big + 1.0)
+                else:
+                    saved[i] = ("ell", r.center)
+                    r.center = np.full(alg.m, big)
+            try:
+                return _inner(*a, **k)
+            finally:
+                for i, sv in saved.items():
+                    if sv[0] == "box":
+                        regs[i].lower, regs[i].upper = sv[1], sv[2]
+                    else:
+                        regs[i].center = sv[1]
+        setattr(alg, name, wrapped)
+
+
 def region_contains(reg, mu):
     mu = np.asarray(mu, dtype=float)
     if hasattr(reg, "lower"):
@@ -769,6 +804,8 @@ def record(cfg):
                 pass
             return r
         alg.compute_pessimistic_set = cps
+    if smodel is not None and cfg["script"].get("poison"):
+        install_phase_frames(alg, cfg)
     done_seen = 0
     valid_history = True
     for stepno in range(cfg.get("max_steps", 60)):
